@@ -71,6 +71,22 @@ func GenToolScenario(r *core.Rand) *ToolScenario {
 	return s
 }
 
+// Without returns the scenario without its emulations from..to-1.
+func (s *ToolScenario) Without(from, to int) *ToolScenario {
+	c := &ToolScenario{Data: s.Data}
+	for i := 0; i < s.K; i++ {
+		if i >= from && i < to {
+			continue
+		}
+		c.K++
+		c.InImage = append(c.InImage, s.InImage[i])
+		c.Ptr = append(c.Ptr, s.Ptr[i])
+		c.MemAns = append(c.MemAns, s.MemAns[i])
+		c.Val = append(c.Val, s.Val[i])
+	}
+	return c
+}
+
 func (s *ToolScenario) desc() *elfref.Desc {
 	var prog []rvref.ProgIns
 	add := func(name string, rd, rs1, rs2 int, imm int64) {
@@ -156,6 +172,14 @@ func RunToolScenario(s *ToolScenario) (vs []ToolViolation, harness string) {
 	bin := filepath.Join(core.VerifDir(), "build", "mltwist")
 	if _, err := os.Stat(bin); err != nil {
 		return nil, "real binary not built: " + bin
+	}
+	if s.K < 0 || len(s.InImage) != s.K || len(s.Ptr) != s.K || len(s.MemAns) != s.K || len(s.Val) != s.K || len(s.Data) != 32 {
+		return nil, "malformed tool scenario"
+	}
+	for i := 0; i < s.K; i++ {
+		if s.InImage[i] && (s.Ptr[i] < toolDataAddr || s.Ptr[i] > toolDataAddr+28) {
+			return nil, "malformed tool scenario (pointer outside the data segment)"
+		}
 	}
 	out, status, err := realRun(bin, elfref.Build(s.desc()), []byte(s.input()))
 	if err != nil && len(out) == 0 {
